@@ -63,8 +63,18 @@ def run_rm(ctx, p):
     A = ctx.call(s1, x, t)
     B = ctx.call(s2, xd0 + (x - xd0) * q, t * q)
     cs = math.sqrt(st["gl"] * st["pl"] / st["rl"]) + math.sqrt(st["gr"] * st["pr"] / st["rr"])
-    cmp(ctx, "sim.xt", which + "_Solver", pat, A, B, F4, 2e-5 if gen else 1e-10,
-        detail=dict(st=st, xd0=xd0, t=t, ratio=q), scales=dict(velocity=cs))
+    tol, extra = (2e-5 if gen else 1e-10), {}
+    if gen:
+        # the general-EOS solver returns values interpolated linearly on its own grid, and the two solvers' grids are not
+        # images of each other: inside a fan that spans N cells the interpolation error is ~ (1/N)^2 / 8 of the variation
+        # across the fan (measured 2.2e-5 for N = 49; doubling the table resolution num_int_pts changes 9e-8, so the
+        # tables are not what limits it).  Resolution-based allowance for the narrowest fan: 0.25 / N^2.
+        fans = ([(V[1] - V[0]) * t / cell] if pat[0] == "R" else []) + ([(V[-1] - V[-2]) * t / cell] if pat[2] == "R" else [])
+        if fans:
+            nmin = max(min(fans), 1.0)
+            tol, extra = tol + 0.25 / nmin ** 2, dict(cells_in_narrowest_fan=nmin)
+    cmp(ctx, "sim.xt", which + "_Solver", pat, A, B, F4, tol,
+        detail=dict(st=st, xd0=xd0, t=t, ratio=q, **extra), scales=dict(velocity=cs))
     v1, v2 = np.asarray(s1.Vregs, float), np.asarray(s2.Vregs, float)
     ctx.observe("sim.xt", which + "_Solver", len(v1) == len(v2) and float(np.max(np.abs(v1 - v2))) <= 1e-12 * cs,
                 branch="wave speeds independent of t " + pat, measure=float(np.max(np.abs(v1 - v2))) / cs if len(v1) == len(v2) else None, tol=1e-12)
